@@ -14,6 +14,9 @@ fn g1_pool(seed: u64) -> Vec<(G1Affine, &'static str)> {
     for _ in 0..4 {
         v.push((G1::random(&mut rng).into_affine(), "rand"));
     }
+    // same ordinate as the generator / as a pool point, other abscissa
+    v.push((endo_img::<G1>(&G1Affine::one(), false), "endo(gen)"));
+    v.push((endo_img::<G1>(&v[4].0.clone(), true), "endo2(rand)"));
     v
 }
 fn g2_pool(seed: u64) -> Vec<(G2Affine, &'static str)> {
@@ -26,6 +29,9 @@ fn g2_pool(seed: u64) -> Vec<(G2Affine, &'static str)> {
     for _ in 0..4 {
         v.push((G2::random(&mut rng).into_affine(), "rand"));
     }
+    v.push((endo_img::<G2>(&G2Affine::one(), false), "endo(gen)"));
+    v.push((endo_img::<G2>(&G2Affine::one(), true), "endo2(gen)"));
+    v.push((endo_img::<G2>(&v[4].0.clone(), true), "endo2(rand)"));
     v
 }
 
@@ -40,7 +46,8 @@ pub fn wl_c03(seed: u64, tier: &str) -> Vec<Vec<Value>> {
     let direct: Vec<(usize, usize)> = if thorough {
         (0..64).map(|i| (i % p1.len(), (i / 2 + i) % p2.len())).collect()
     } else {
-        vec![(0, 0), (2, 2), (3, 3), (4, 0), (0, 4), (5, 5), (6, 2), (2, 6), (1, 3), (3, 1), (1, 1), (4, 4)]
+        vec![(0, 0), (2, 2), (3, 3), (4, 0), (0, 4), (5, 5), (6, 2), (2, 6), (1, 3), (3, 1), (1, 1), (4, 4),
+             (0, 7), (7, 0), (3, 8), (8, 9)]
     };
     for (i, j) in direct {
         sessions.push(vec![json!({"op": "pairing", "p": aff_to_j(&p1[i].0), "q": aff_to_j(&p2[j].0),
@@ -51,7 +58,7 @@ pub fn wl_c03(seed: u64, tier: &str) -> Vec<Vec<Value>> {
     let mut scal: Vec<(W, &str)> = vec![
         (z.clone(), "0"), (w_add_small(&z, 1), "1"), (w_add_small(&z, 2), "2"), (w_add_small(&z, 65537), "small"),
         (w_sub_small(&fr.p, 1), "r-1"), (fr.p.clone(), "r"), (w_add_small(&fr.p, 1), "r+1"),
-        (w_ones(256, 4), ">=r"),
+        (w_ones(256, 4), ">=r"), (LAMBDA.to_vec(), "lambda"), (LAMBDA2.to_vec(), "lambda^2"),
     ];
     for _ in 0..4 {
         scal.push((rand_scalar_bits(&mut r, 255), "rand255"));
@@ -189,6 +196,27 @@ pub fn wl_c12(seed: u64, tier: &str) -> Vec<Vec<Value>> {
         ops.push(json!({"op": "finalexp", "f": f, "cls": cls}));
     }
     sessions.push(ops);
+    // every zero / non-zero pattern of the six Fq2 coefficients: failure is reported exactly for zero;
+    // the value is in the target group and multiplicative (cheap), and for a sample the exact power
+    let mut pats: Vec<(u32, Value)> = vec![];
+    for m in 1u32..64 {
+        let cs: Vec<Value> = (0..6).map(|i| if m >> i & 1 == 1 { rand_f2(&mut r, &fq) } else { z2.clone() }).collect();
+        pats.push((m, json!([[cs[0], cs[1], cs[2]], [cs[3], cs[4], cs[5]]])));
+    }
+    let mut ops = vec![];
+    for (m, f) in pats.iter() {
+        ops.push(json!({"op": "finalexp", "f": f, "cheap": true, "cls": format!("shape-{:02x}", m)}));
+        ops.push(json!({"op": "ferel", "f": f, "g": rand_f12(&mut r, &fq), "cls": format!("shape-{:02x}", m)}));
+        if ops.len() >= 8 {
+            sessions.push(std::mem::replace(&mut ops, vec![]));
+        }
+    }
+    sessions.push(ops);
+    for (i, (m, f)) in pats.iter().enumerate() {
+        if m >> 3 != 0 && (thorough || i % 9 == (seed % 9) as usize) {
+            sessions.push(vec![json!({"op": "finalexp", "f": f, "cls": format!("shape-direct-{:02x}", m)})]);
+        }
+    }
     // direct evaluations (about 30 s of TLC each): w, units with zero components, Miller outputs, random
     let mut direct: Vec<(Value, &str)> = vec![
         (json!([z6, [o2, z2, z2]]), "w"),
